@@ -20,11 +20,48 @@ def bad_factory(shape):
     return np.zeros(tuple(shape) + (1,))
 
 
+def make_factory(kind):
+    """A fresh, short-lived factory object per call: nothing but the call itself refers to it."""
+    import functools
+
+    if kind == "plain":
+        return lambda shape: np.ones(shape)
+    if kind == "name":
+        return lambda shape, name: np.ones(shape) * 2
+    if kind == "arg_index":
+        return lambda shape, arg_index: np.ones(shape) * (3 + arg_index)
+    if kind == "signature":
+        return lambda shape, signature: np.ones(shape) * 4
+    if kind == "kwargs":
+        return lambda shape, **kwargs: np.ones(shape) * (5 + len(kwargs))
+    if kind == "partial":
+        return functools.partial(lambda shape, fill: np.full(shape, fill), fill=6.0)
+    if kind == "partial-name":
+        return functools.partial(lambda shape, name, fill: np.full(shape, fill), fill=7.0)
+    if kind == "method":
+
+        class F:
+            def make(self, shape):
+                return np.ones(shape) * 8
+
+        return F().make
+    if kind == "callable-object":
+
+        class G:
+            def __call__(self, shape, name=None):
+                return np.ones(shape) * 9
+
+        return G()
+    raise ValueError(kind)
+
+
 def outcome_of(call):
     args = []
     for i, s in enumerate(call["shapes"]):
         if s == "bad-factory":
             args.append(bad_factory)
+        elif isinstance(s, str) and s.startswith("factory:"):
+            args.append(make_factory(s.split(":", 1)[1]))
         elif s == "scalar":
             args.append(call["scalar"])
         else:
@@ -40,6 +77,7 @@ def outcome_of(call):
         else:
             r = getattr(einx, call["op"])(call["desc"], *args, **kw)
     except Exception as e:
+        del args
         return {"exc": type(e).__name__}
     if isinstance(r, str):
         return {"code": r}
@@ -47,6 +85,10 @@ def outcome_of(call):
         return {"value": json.dumps({k: np.asarray(v).tolist() for k, v in sorted(r.items())})}
     if isinstance(r, bool):
         return {"value": r}
+    del args
+    import gc
+
+    gc.collect()
     rs = r if isinstance(r, (tuple, list)) else [r]
     try:
         return {"value": [np.asarray(x).tolist() for x in rs], "shape": [list(np.shape(x)) for x in rs], "dtype": [str(np.asarray(x).dtype) for x in rs]}
